@@ -14,7 +14,10 @@ None == "none"
 \*   okctl / oktun (connection whose control / tunnel type handshake just succeeded),
 \*   closed (connection closed by this operation), unreg (connection turned into a tunnel),
 \*   proj [lookup: X -> [c, cid, authd]  (GetControlConnectionByClientID; c = "none": nothing),
-\*         conns:  c -> [sess, reg, tun, authd, cid, tcl]   (per accepted connection),
+\*         ilookup: the same for GetControlConnectionInterface (c = "none" only for a real nil interface),
+\*         conns:  c -> [sess, reg, tun, authd, cid, tcl, info, cidof]   (per accepted connection: GetConnection,
+\*                 GetControlConnection (+IsAuthenticated/GetClientID), tunnel registry, transport closed flag,
+\*                 GetStreamConnectionInfo, GetClientIDByConnectionID),
 \*         listed: sequence of connection names (ListAuthenticated),
 \*         slist:  sequence of connection names (SessionManager.ListConnections),
 \*         ctl, tun, total, count  (GetConnectionStats / GetActiveChannels)]
@@ -37,15 +40,18 @@ Check(p, D, cc, gn, un, rg) ==
       sl == ToSet(p.slist)
       hit(X) == p.lookup[X].c # None
       dead == {c \in cs : p.conns[c].tcl} \cup (gn \cap cs)
-  IN   (IF \E X \in xs : hit(X) /\ p.lookup[X].cid # X THEN {V("LookupOwner", D)} ELSE {})
-  \cup (IF \E X \in xs : hit(X) /\ ~p.lookup[X].authd THEN {V("LookupAuthenticated", D)} ELSE {})
-  \cup (IF \E X \in xs : hit(X) /\ (p.lookup[X].c \notin cs \/ ~p.conns[p.lookup[X].c].sess \/ ~p.conns[p.lookup[X].c].reg
-                                        \/ p.conns[p.lookup[X].c].tcl) THEN {V("LookupLive", D)} ELSE {})
+      \* soundness of one by-client lookup variant m (clause names prefixed with pre)
+      Lk(m, pre) ==
+           (IF \E X \in xs : m[X].c # None /\ m[X].cid # X THEN {V(pre \o "LookupOwner", D)} ELSE {})
+        \cup (IF \E X \in xs : m[X].c # None /\ ~m[X].authd THEN {V(pre \o "LookupAuthenticated", D)} ELSE {})
+        \cup (IF \E X \in xs : m[X].c # None /\ (m[X].c \notin cs \/ ~p.conns[m[X].c].sess \/ ~p.conns[m[X].c].reg
+                                               \/ p.conns[m[X].c].tcl) THEN {V(pre \o "LookupLive", D)} ELSE {})
+        \cup (IF \E c \in dead : \E X \in xs : m[X].c = c THEN {V(pre \o "ClosedStillLookedUp", D)} ELSE {})
+  IN   Lk(p.lookup, "") \cup Lk(p.ilookup, "Iface")
   \cup (IF \E X \in xs : Cardinality({c \in cs : p.conns[c].reg /\ p.conns[c].authd /\ p.conns[c].cid = X
                                                   /\ (c \in cc \/ p.lookup[X].c = c)}) > 1 THEN {V("OnePerClient", D)} ELSE {})
-  \cup (IF \E c \in dead : \E X \in xs : p.lookup[X].c = c THEN {V("ClosedStillLookedUp", D)} ELSE {})
-  \cup (IF \E c \in dead : p.conns[c].reg \/ p.conns[c].tun \/ c \in ls THEN {V("ClosedStillRegistered", D)} ELSE {})
-  \cup (IF \E c \in dead : p.conns[c].sess \/ c \in sl THEN {V("ClosedStillCounted", D)} ELSE {})
+  \cup (IF \E c \in dead : p.conns[c].reg \/ p.conns[c].tun \/ c \in ls \/ p.conns[c].cidof # None THEN {V("ClosedStillRegistered", D)} ELSE {})
+  \cup (IF \E c \in dead : p.conns[c].sess \/ c \in sl \/ p.conns[c].info THEN {V("ClosedStillCounted", D)} ELSE {})
   \cup (IF \E c \in gn \cap cs : ~p.conns[c].tcl THEN {V("ClosedTransportOpen", D)} ELSE {})
   \cup (IF \E c \in (rg \cap cs) \ un : ~p.conns[c].reg /\ ~p.conns[c].tcl THEN {V("EvictedTransportOpen", D)} ELSE {})
   \cup (IF \E c \in (rg \cap cs) \ un : ~p.conns[c].reg /\ (p.conns[c].sess \/ c \in sl) THEN {V("EvictedStillCounted", D)} ELSE {})
